@@ -102,8 +102,12 @@ impl Database {
         let stmts = parse(&sql)?;
         let mut outputs: Vec<Chunk> = vec![];
         for stmt in stmts {
+            // Binding, optimizing and building the executors are synchronous steps of this
+            // statement: a panic inside one of them is reported as an error of the statement, it
+            // does not unwind out of `run` into the caller's session.
             let mut binder = crate::binder::Binder::new(self.catalog.clone());
-            let mut plan = binder.bind(stmt.clone()).map_err(|e| e.with_sql(&sql))?;
+            let mut plan = no_unwind("binder", || binder.bind(stmt.clone()))?
+                .map_err(|e| e.with_sql(&sql))?;
             // the binder has consulted the catalog; execution has not started
             #[cfg(risinglight_verif)]
             crate::verif::point("db.bound", "").await;
@@ -111,10 +115,10 @@ impl Database {
                 continue;
             }
             if !self.config.lock().unwrap().disable_optimizer {
-                plan = optimizer.optimize(plan);
+                plan = no_unwind("optimizer", || optimizer.optimize(plan))?;
             }
-            // A plan the executor builder can not handle panics inside `build`, before any operator
-            // task exists: report it as an error of this statement, do not unwind out of `run`.
+            // (a plan the executor builder can not handle panics inside `build`, before any
+            // operator task exists)
             let build = || match self.storage.clone() {
                 StorageImpl::InMemoryStorage(s) => {
                     crate::executor::build(optimizer.clone(), s, &plan)
@@ -123,14 +127,7 @@ impl Database {
                     crate::executor::build(optimizer.clone(), s, &plan)
                 }
             };
-            let executor = std::panic::catch_unwind(std::panic::AssertUnwindSafe(build)).map_err(
-                |payload| {
-                    let message = (payload.downcast_ref::<&str>().map(|s| s.to_string()))
-                        .or_else(|| payload.downcast_ref::<String>().cloned())
-                        .unwrap_or_else(|| "unknown panic".into());
-                    Error::Internal(format!("executor builder panicked: {message}"))
-                },
-            )?;
+            let executor = no_unwind("executor builder", build)?;
             let output = executor.try_collect().await?;
             let mut chunk = Chunk::new(output);
             chunk = bind_header(chunk, &stmt);
@@ -273,6 +270,16 @@ impl Database {
         };
         Ok(executor.try_collect().await?)
     }
+}
+
+/// Runs a synchronous step of a statement; a panic inside it becomes `Error::Internal`.
+fn no_unwind<T>(what: &str, step: impl FnOnce() -> T) -> Result<T, Error> {
+    std::panic::catch_unwind(std::panic::AssertUnwindSafe(step)).map_err(|payload| {
+        let message = (payload.downcast_ref::<&str>().map(|s| s.to_string()))
+            .or_else(|| payload.downcast_ref::<String>().cloned())
+            .unwrap_or_else(|| "unknown panic".into());
+        Error::Internal(format!("{what} panicked: {message}"))
+    })
 }
 
 /// The error type of database operations.
